@@ -21,6 +21,7 @@ from nodelemmas import Obl
 import runnerlemmas as RL
 
 VAL = "value::value::Value"
+RES = "std::result::Result<value::value::Value, compiler::expression_error::ExpressionError>"
 OPT_VAL = "std::option::Option<value::value::Value>"
 
 
@@ -144,6 +145,145 @@ def obligations(S):
     if n_internal == 0:
         raise Unencodable("assignment simulation lemma: no Internal-target path (vacuous)")
     return obls, sorted(set(fns))
+
+
+def variable_obligations(S):
+    """`Variable`: under R for its identifier (LocalEnv[x].value = Some(c) ==> RuntimeState[x] = c),
+    resolve_constant = Some(c) ==> resolve = Ok(c).  Both bodies run on the same `self`; the two stores are
+    oracles keyed by the identifier term, so a lookup of a different identifier (or of a different field of
+    the details) yields an unrelated value and the obligation fails."""
+    obls, fns = [], []
+    f_rc = S.method("Expression", "Variable", "resolve_constant")
+    f_rs = S.method("Expression", "Variable", "resolve")
+    fns += [(f_rc.name, f_rc.text_hash), (f_rs.name, f_rs.text_hash)]
+    DET = "std::option::Option<&compiler::type_def::Details>"
+
+    def m_local_var_details(ex, st, callee, args, dest_ty, frame, depth):
+        key = _key(ex, st, args[1])
+        st.ghost.setdefault("local_reads", []).append(key)
+        out = []
+        s_none = st.fork()
+        out.append((s_none, Outcome("ret", Enum(dest_ty, bv64(0), {}))))
+        cell = f"details[{key}]"
+        if cell not in st.heap:
+            st.heap[cell] = Agg("compiler::type_def::Details", {0: ex.fresh("compiler::type_def::TypeDef", f"local0[{key}].type_def"),
+                                                                1: ex.fresh(OPT_VAL, f"local0[{key}].value")})
+        out.append((st, Outcome("ret", ex.mk_enum(dest_ty, "Some", [Ref("&compiler::type_def::Details", cell, ())]))))
+        return out
+
+    oracles = [(re.compile(r"^(state::)?LocalEnv::variable$"), m_local_var_details),
+               (re.compile(r"^(state::)?RuntimeState::variable$"), RL.m_variable),
+               (re.compile(r"^context::Context::<'_>::state(_mut)?$"), RL.m_state_mut)]
+    ex = S.executor(oracles=oracles, opaque=OPAQUE)
+    selfv = ex.fresh("&variable::Variable", "self")
+    paths1 = ex.run(f_rc, [selfv, ex.fresh("&TypeState", "tstate")], State())
+    n_some = 0
+    for pi, p1 in enumerate(paths1):
+        if p1.outcome.kind != "ret":
+            continue
+        for s1, vn in ex.case_split(p1.st, p1.outcome.value, OPT_VAL):
+            if vn != "Some":
+                continue
+            n_some += 1
+            c = ex.enum_field(s1, p1.outcome.value, "Some", 0, VAL)
+            reads = s1.ghost.get("local_reads", [])
+            s2 = s1.fork()
+            # R, instantiated for every identifier whose recorded constant was consulted
+            for key in set(reads):
+                cell = f"details[{key}]"
+                if cell in s2.heap:
+                    rec = ex.agg_field(s2, s2.heap[cell], 1, OPT_VAL)
+                    vv0 = V(ex, s2)
+                    rt = RL.vars_lookup(ex, s2, key)
+                    ex.add_invariant(("R", key), z3.Implies(vv0.is_variant(rec, "Some", OPT_VAL),
+                                                            z3.And(vv0.is_variant(rt, "Some", OPT_VAL),
+                                                                   vv0.same(vv0.field(rt, "Some", 0, VAL), vv0.field(rec, "Some", 0, VAL)))))
+            paths2 = ex.run(f_rs, [selfv, ex.fresh("&mut context::Context<'_>", "ctx")], s2)
+            for pj, p2 in enumerate(paths2):
+                vv = V(ex, p2.st)
+                if p2.outcome.kind != "ret":
+                    post = z3.BoolVal(False)
+                else:
+                    r = p2.outcome.value
+                    post = z3.And(vv.is_variant(r, "Ok", RES), vv.same(vv.field(r, "Ok", 0, VAL), c))
+                role = "C12:Variable:constant-matches-runtime"
+                o = Obl(role, {"C12"}, f"{role}#rc{pi}#res{pj}", p2, post,
+                        {"constant": ex.val_name(s1, c)[:120], "runtime": ex.val_name(p2.st, p2.outcome.value)[:160] if p2.outcome.kind == "ret" else p2.outcome.msg,
+                         "hypothesis": "R for " + ", ".join(sorted(set(reads)))})
+                o.ex = ex
+                obls.append(o)
+    if not n_some:
+        raise Unencodable("Variable::resolve_constant never returns Some (vacuous)")
+    return obls, fns
+
+
+def details_merge_obligations(S):
+    """`Details::merge` (the join at if/else and closures): the merged constant is kept only when both sides carry
+    the same constant -- otherwise R would break on the branch that did not run"""
+    obls, fns = [], []
+    cands = [x for x in S.prog.find(None, "Details", "merge")]
+    if len(cands) != 1:
+        raise Unencodable(f"Details::merge: {len(cands)} bodies")
+    f = cands[0]
+    fns.append((f.name, f.text_hash))
+
+    def m_opt_eq(ex, st, callee, args, dest_ty, frame, depth):
+        a, b = ex.val_name(st, args[0]), ex.val_name(st, args[1])
+        st.ghost.setdefault("eqs", []).append((a, b))
+        return [(st, Outcome("ret", Prim("bool", z3.Bool(f"opt_eq({a},{b})"))))]
+
+    ex = S.executor(oracles=[(re.compile(r"^<std::option::Option<value::value::Value> as PartialEq>::eq$|^<Option<value::value::Value> as PartialEq>::eq$"), m_opt_eq)], opaque=OPAQUE)
+    a = Agg("compiler::type_def::Details", {0: ex.fresh("compiler::type_def::TypeDef", "a.type_def"), 1: ex.fresh(OPT_VAL, "a.value")})
+    b = Agg("compiler::type_def::Details", {0: ex.fresh("compiler::type_def::TypeDef", "b.type_def"), 1: ex.fresh(OPT_VAL, "b.value")})
+    paths = ex.run(f, [a, b], State())
+    kept = 0
+    for pi, p in enumerate(paths):
+        bad = []
+        if p.outcome.kind != "ret":
+            bad.append(f"{p.outcome.kind}: {p.outcome.msg}")
+        else:
+            val = ex.agg_field(p.st, p.outcome.value, 1, OPT_VAL)
+            name = ex.val_name(p.st, val)
+            pcs = [str(c).replace("\n", " ") for c in p.st.pc]
+            is_none = isinstance(val, Enum) and z3.is_bv_value(p.st.simp(val.discr)) and p.st.simp(val.discr).as_long() == 0
+            if not is_none:
+                kept += 1
+                def positive_eq(c):
+                    n = 0
+                    while c.startswith("Not(") and c.endswith(")"):
+                        c, n = c[4:-1], n + 1
+                    return n % 2 == 0 and c.startswith("opt_eq(") and "a.value" in c and "b.value" in c
+                agreed = any(positive_eq(c) for c in pcs)
+                if name not in ("a.value", "b.value"):
+                    bad.append(f"merged constant is {name}, neither side's")
+                if not agreed:
+                    bad.append(f"constant {name} kept although the two sides were not compared equal (path condition {pcs})")
+        role = "C12:Details::merge:constant-kept-only-when-both-sides-agree"
+        o = Obl(role, {"C12"}, f"{role}#path{pi}", p, z3.BoolVal(not bad), {"problems": bad})
+        o.ex = ex
+        obls.append(o)
+    if not kept:
+        raise Unencodable("Details::merge never keeps a constant (vacuous)")
+    return obls, fns
+
+
+def merge_battery():
+    return [
+        ({"source": "x = 0\nif .flag == true { x = 2 }\n.r = 10 / x\n", "event": {"flag": False}}, {"accepted_never_fails": True}),
+        ({"source": "x = 1\nif .flag == true { x = 2 } else { x = 0 }\n.r = 10 / x\n", "event": {"flag": False}}, {"accepted_never_fails": True}),
+        ({"source": "x = 1\nif .flag == true { x = 0 } else { x = 2 }\n.r = 10 / x\n", "event": {"flag": True}}, {"accepted_never_fails": True}),
+        ({"source": "x = 2\nif .flag == true { x = 0 }\n.r = 10 / x\n", "event": {"flag": True}}, {"accepted_never_fails": True}),
+        ({"source": "x = 2\nif .flag == true { x = 0 } else { x = 4 }\n.r = 10 / x\n", "event": {"flag": True}}, {"accepted_never_fails": True}),
+        ({"source": "x = 2\nif .flag == true { x = 2 } else { x = 2 }\n.r = 10 / x\n", "event": {"flag": True}}, {"outcome": "ok", "event_eq": {"r": {"Float": "0x4014000000000000"}}}),
+    ]
+
+
+def variable_battery():
+    return [
+        ({"source": "x = 2\ny = 0\n.r = 10 / x\n", "event": {}}, {"outcome": "ok", "event_eq": {"r": {"Float": "0x4014000000000000"}}}),
+        ({"source": "y = 0\nx = 2\n.r = 10 / x\n", "event": {}}, {"outcome": "ok", "event_eq": {"r": {"Float": "0x4014000000000000"}}}),
+        ({"source": "x = 2\n.r = 10 / x\n.s = x\n", "event": {}}, {"outcome": "ok", "types_sound": True, "event_eq": {"s": {"Integer": "2"}}}),
+    ]
 
 
 def battery():
